@@ -44,6 +44,7 @@ def char_rule(a: str, b: str):
 
 class C08(DocProp):
     id = "C08"
+    once_kinds = ("exh",)
     rule = ("cases: (a) exhaustive: every concatenation of <= 5 symbols from the 15-symbol alphabet "
             "[' \" a s space . newline {% %} <!-- --> em-dash ) backslash right-single-curly] through smart_quotes() "
             "(813,615 strings, split over shards by first symbols); (b) G-doc documents of the 'typo' and 'core' "
